@@ -18,6 +18,8 @@ def has_sym(a) -> bool:
     if isinstance(a, Sym):
         return True
     if isinstance(a, _np.ndarray):
+        if isinstance(a, SArr):
+            return any(isinstance(x, Sym) for x in a.raw.flat)
         if a.dtype != object:
             return False
         return any(isinstance(x, Sym) for x in _np.asarray(a, dtype=object).flat)
@@ -415,10 +417,15 @@ def _reduce_cmp(a, axis, keepdims, better):
     raw = _np.asarray(_strip(a), dtype=object)
     ldt = a._ldt if isinstance(a, SArr) else _F64
 
+    merge = getattr(ctx().opts, "merge_minmax", False) if E._CTX is not None else False
+
     def red(v):
         best = v[0]
         for x in v[1:]:
-            if bool(better(x, best)):
+            cnd = better(x, best)
+            if merge and isinstance(cnd, SymBool):
+                best = cnd.ite(x, best)  # value-level min/max as an if-then-else term: no fork
+            elif bool(cnd):
                 best = x
         return best
 
